@@ -21,7 +21,8 @@ type tblOp struct {
 
 type cellV struct {
 	Span  int // 0 = none
-	VM    string
+	VM    string // "", "restart", "continue" (an element without a value continues, as in OOXML), or the value as found
+	VMRaw string // "nil" or "set:<value>": what is stored (for the equality oracles only; the model does not see it)
 	Paras []int
 }
 type tableV struct {
@@ -50,7 +51,14 @@ func viewTable(t *document.Table) tableV {
 				}
 				if c.Properties.VMerge != nil {
 					cv.VM = c.Properties.VMerge.Val
+					if cv.VM == "" {
+						cv.VM = "continue"
+					}
+					cv.VMRaw = "set:" + c.Properties.VMerge.Val
 				}
+			}
+			if cv.VMRaw == "" {
+				cv.VMRaw = "nil"
 			}
 			for _, p := range c.Paragraphs {
 				a := 0
@@ -390,6 +398,7 @@ type tblCase struct {
 	Family     string
 	Grid0      string // "": the grid AddTable gives; "none", "short", "long": as an opened document may hold the table
 	GridN      int
+	Bare       bool // at some point the continuation cells of a vertical merge were rewritten to the value-less form
 	Ops        []tblOp
 }
 
@@ -575,6 +584,17 @@ func runTblCase(r *rng, family string, nr, nc int, fixed ...tblOp) (c tblCase, c
 		}
 		res := applyTblOp(t, o)
 		after := viewTable(t)
+		// a vertical merge as Word writes it: the continuation cells carry <w:vMerge/> without a value
+		if res == 0 && family != "plain" && (o.Kind == "MergeV" || o.Kind == "MergeRange") && r.chance(35) {
+			for ri := range t.Rows {
+				for ci := range t.Rows[ri].Cells {
+					if pr := t.Rows[ri].Cells[ci].Properties; pr != nil && pr.VMerge != nil && pr.VMerge.Val == "continue" {
+						pr.VMerge.Val = ""
+						c.Bare = true
+					}
+				}
+			}
+		}
 		// the reading calls (iterators, ranges, searches) on the table as it is now: they must not panic on any
 		// table, and on a plain rows-by-columns table they visit every cell once, row by row
 		if i%4 == 3 {
